@@ -102,6 +102,26 @@ def standalone_verdict(prog, rows, pol, fname="sv.csv"):
     return c.is_valid
 
 
+_FAIL_ALL_EVENTS = []
+
+
+def install_fail_all_hook():
+    """records (csvpath object, physical line) whenever fail_all() is executed"""
+    from csvpath.matching.functions.validity.fail import FailAll
+
+    if getattr(FailAll, "_vfy", False):
+        return
+    orig = FailAll._decide_match
+
+    def _decide_match(self, skip=None):
+        cp = self.matcher.csvpath
+        _FAIL_ALL_EVENTS.append((cp, cp.line_monitor.physical_line_number))
+        return orig(self, skip=skip)
+
+    FailAll._decide_match = _decide_match
+    FailAll._vfy = True
+
+
 def validity_group_case(seed, shard, i, make_case):
     r = random.Random(f"{seed}:C04g:{shard}:{i}")
     n = r.randint(1, 4)
@@ -117,7 +137,16 @@ def validity_group_case(seed, shard, i, make_case):
         members.append(prog)
     pol = r.choice([["collect", "print"], ["collect", "fail"], ["collect", "stop"], ["collect", "stop", "fail"], ["fail", "print"], ["stop", "print"], ["collect", "stop", "fail", "print"]])
     cps_pol = None
-    if r.random() < 0.12:
+    if r.random() < 0.15:
+        # a member that finishes early (bounded scan, stop()) next to one that calls fail_all() later in the file
+        early = r.choice([
+            {"scan": "0-1", "comps": [["fn", "yes", [], []]], "mode": "AND"},
+            {"scan": "*", "comps": [["fn", "push", [["str", "e"], ["hdr", "0"]], []], ["fn", "stop", [["eq", ["fn", "line_number", [], []], ["int", 1]]], []]], "mode": "AND"},
+        ])
+        judge = {"scan": "*", "comps": [["when", ["eq", ["hdr", "1"], ["str", "F"]], ["fn", "fail_all", [], []]]], "mode": "AND"}
+        members = members[: r.randint(0, 2)] + [early, judge]
+        r.shuffle(members)
+    elif r.random() < 0.12:
         # a member that cannot even be built (unknown function): it fails outside match-component evaluation, at the
         # CsvPaths level; under a CsvPaths-level policy without 'raise' the run goes on and the verdicts must still agree
         members.insert(r.randint(0, len(members)), {"scan": "*", "comps": [["fn", r.choice(["nosuchfunction", "yess"]), [], []]], "mode": "AND"})
@@ -139,12 +168,29 @@ def check_validity_group(case, agg):
         add_file(cs, "data", rows)
         texts = [member_text(p, ident=f"m{j}") for j, p in enumerate(members)]
         cs.paths_manager.add_named_paths(name="grp", paths=texts)
+        install_fail_all_hook()
+        del _FAIL_ALL_EVENTS[:]
         lines, exc = run_method(cs, method, "grp", "data")
+        fail_all_events = list(_FAIL_ALL_EVENTS)
         if exc is not None:
             return "exception", {"method": method, "exc": f"{type(exc).__name__}: {str(exc)[:300]}", "members": texts, "rows": rows, "policy": pol}
         results = cs.results_manager.get_named_results("grp")
         verdicts = [r.csvpath.is_valid for r in results]
         witness = {"method": method, "members": texts, "rows": rows, "policy": pol, "member_verdicts": verdicts}
+        if method in BYLINE and fail_all_events and len(results) == len(members) and case.get("csvpaths_policy") is None:
+            # (not asked of groups with an unbuildable member: the members after it are never visited - observation O8)
+            # fail_all(): "fails this CsvPath instance and all the CsvPath instances that may be siblings in the run".
+            # The least any breadth-first implementation of that does: the members placed after the caller are visited
+            # on that very line with the signal up - stopped or not, they end the run failed.
+            order = [r_.csvpath for r_ in results]
+            for cp, ln in fail_all_events:
+                j = next((k for k, c_ in enumerate(order) if c_ is cp), None)
+                if j is None:
+                    continue
+                for k in range(j + 1, len(order)):
+                    if order[k].will_run is True and verdicts[k] is not False:
+                        witness["fail_all"] = {"executed_by_member": j, "on_line": ln, "sibling_still_valid": k, "sibling_stopped": order[k].stopped}
+                        return "fail_all-does-not-reach-a-later-sibling", witness
         if len(results) != len(members):
             witness["n_results"] = len(results)
             return "member-count", witness
